@@ -1,7 +1,7 @@
 #!/bin/bash
 # tools/seed_auto.sh <seed-ID> <n> <check IDs...> : confirm (demo fails with / passes without, suite passes) then run checks.
 ID=$1; N=$2; shift 2
-D=/tmp/seed/$ID/demo${N}_test.go
+D=${SEEDDIR:-/tmp/seed}/$ID/demo${N}_test.go
 PKG=$(grep -m1 -i "package dir" $D | sed -E 's/.*[Pp]ackage dir(ectory)?:? *//; s/ .*//; s#^/tmp/wt/[A-Z0-9]*/##; s#/$##')
 RX=$(grep -E "^func Test" $D | sed -E 's/func (Test[A-Za-z0-9_]*).*/\1/' | paste -sd'|')
 echo "### $ID change $N pkg=$PKG tests=$RX"
